@@ -133,12 +133,55 @@ def finalize_oracle(plan, res, v, info):
         v.append(("C07.keeps-running", "the interpreter did not answer an event sent after the failing finalize blocks (events %s)" % evs[:16]))
 
 
+def transient_plan(seed, k, rp):
+    """(T) transient datamodel failures: the real datamodel behind a decorator that makes seeded calls issued from executable
+    content fail with error.execution (FaultyDataModel in the harness); the chart itself has no failing element"""
+    dm = rp.choice(["lua", "promela"])
+    root = p_c01.gen_chart(rp, dm, {})
+    engine = "default"    # the reference model is compared with the default (large) engine, as in mode A; C03 covers fast against large
+    ops = [{"op": "create", "i": 0, "chart": "main", "engine": engine,
+            "dm_faults": {"seed": rp.getrandbits(30), "p": rp.choice([0.03, 0.08, 0.2])}},
+           {"op": "validate", "i": 0}] + p_c01.history_ops(rp, many=(True if (root.meta or {}).get("par_bias") and rp.random() < 0.8 else None))
+    return {"id": k, "seed": seed, "entropy_seed": seed & 0x7fffffff, "mode": "T", "flavour": "san" if rp.random() < 0.33 else "plain", "planted": "transient-datamodel-failure",
+            "sched": {"seed": seed & 0x7fffffff, "policy": "nonpreempt", "max_decisions": 400000}, "step_budget": 200,
+            "charts": {"main": root.xml()}, "actors": {"main": ops}}
+
+
+def transient_faults(root, res):
+    """-> fail_occ for the reference model: which execution of which element got a fault (and for <if>, which head)"""
+    seen = {}
+    occ = {}
+    idx = root.index_by_xpath()
+    n = 0
+    for r in res.lines:
+        if r[SESS] != "i0":
+            continue
+        if r[KIND] == "bxc":
+            seen[r[5]] = seen.get(r[5], 0) + 1
+        elif r[KIND] == "flt":
+            n += 1
+            elem, expr = r[6], r[7]
+            head = None
+            els = idx.get(elem, [])
+            if els and els[0].tag == "if":
+                heads = [els[0]] + [c for c in els[0].children if c.tag == "elseif"]
+                head = 0
+                for hi, h in enumerate(heads):
+                    if h.attrs.get("cond", "")[:80] == expr:
+                        head = hi
+                        break
+            occ.setdefault(elem, {})[seen.get(elem, 0)] = head
+    return occ, n
+
+
 def gen_plan(seed, k):
     rp = usimlib.substream(seed, "plan")
     x0 = rp.random()
     if x0 < 0.06:
         return finalize_plan(seed, k, rp)
-    mode = "B" if x0 < 0.25 else "A"
+    if x0 < 0.21:
+        return transient_plan(seed, k, rp)
+    mode = "B" if x0 < 0.38 else "A"
     flavour = "san" if rp.random() < 0.33 else "plain"
     dm = rp.choice(["lua", "lua", "promela", "promela", "null"])
     feats = {}
@@ -194,11 +237,15 @@ def oracle(plan, res):
     except Exception as e:
         return v, info
     fm = gen.fail_map(root)
-    rv, rinfo = refine.refine(root, plan, res, fail_elems=fm)
+    fo = None
+    if plan.get("mode") == "T":
+        fo, nflt = transient_faults(root, res)
+        info["faults_injected"] = nflt
+    rv, rinfo = refine.refine(root, plan, res, fail_elems=fm, fail_occ=fo)
     for (rule, detail) in rv:
         if rule.startswith("C01."):
             # a divergence that one of C01's known deviations explains is C01's finding, not an error-handling fault
-            known = p_c01.classify(rule, detail, plan, fail_elems=fm)
+            known = p_c01.classify(rule, detail, plan, fail_elems=fm, fail_occ_fn=(transient_faults if plan.get("mode") == "T" else None))
             if known:
                 info["known_c01"] = known
                 continue
@@ -209,6 +256,8 @@ def oracle(plan, res):
             v.append((rule, detail))
     executed = set(r[5] for r in res.lines if r[KIND] == "bxc")
     info["executed_fail"] = len([x for x in fm if x in executed]) + (1 if any(x.startswith("//data") for x in fm) else 0)
+    if plan.get("mode") == "T":
+        info["executed_fail"] = info.get("faults_injected", 0)
     info["nontrivial"] = info["executed_fail"] > 0
     return v, info
 
@@ -235,7 +284,9 @@ def run_one(ctx, usim, seed, k, acc):
     acc.count("pol.nonpreempt")
     acc.count("mode." + plan["mode"])
     acc.count("flavour." + plan["flavour"])
-    if plan["mode"] in ("A", "F"):
+    if plan["mode"] == "T":
+        acc.count("fault.transient_datamodel_failures_injected", info.get("faults_injected", 0))
+    if plan["mode"] in ("A", "F", "T"):
         acc.count("fault.planted_failing_" + str(plan["planted"]))
         acc.count("probe.planted_element_executed", info["executed_fail"])
     else:
